@@ -4,7 +4,8 @@
   `reversePermutation`, the pass loop with its pointer swaps, the final "should never need this copy" test — against the
   hand model's `nttIters` (Model/Ntt.lean), for sizes 2 ≤ 2^K ≤ 2^30.
 -/
-import GoldilocksVerif.Lemmas.BridgeNttIters
+import GoldilocksVerif.Lemmas.BridgeNttItersG
+import GoldilocksVerif.Lemmas.BridgeNttComm
 import GoldilocksVerif.Lemmas.BridgeNttSizes
 
 namespace GoldilocksVerif.BridgeNtt
@@ -114,6 +115,230 @@ theorem nttIters_gen (fuel : Nat) (hf : 64 ≤ fuel) (hp : Heap) (self : NTT_Gol
   simp only [Option.bind_some, setWidth_ofNat32 K (by omega), hpow, if_true, clamp_gen nphase K (by omega), hlogK, hnp, hdiv,
     hmod, hres0, hmbp0, hodd]
   have hpk : 2 ^ K = N := hN.symm
+  -- the step function of the pass loop, whatever its parameter list: one step of the model's schedule + `pass`
+  name_while step with hstepdef
+  have hstep : ∀ (A A2 : Nat), A ≠ A2 → A < hp.size → A2 < hp.size → ObjFrame self A → ObjFrame self A2 →
+      ∀ (mbp s count : Nat), 1 ≤ s → s ≤ K → 1 ≤ mbp → mbp ≤ 64 → count ≤ 128 → ∀ (tmp : Ptr) (st : Block × Block),
+      step (bv mbp, Heap.R2 hp A A2 st, tmp, ⟨A2, 0⟩, ⟨A, 0⟩, bv s, bv count) =
+        some (true, (bv (stepMbp (K % np) count mbp),
+          Heap.R2 hp A A2 (Model.Ntt.iter (N / 2 ^ stepInc K s (stepMbp (K % np) count mbp)) st
+            (Model.Ntt.passBatch o N K NC s (stepInc K s (stepMbp (K % np) count mbp))
+              (!(decide (s + stepMbp (K % np) count mbp ≤ K) || !inverse)) extend)),
+          ⟨A2, 0⟩, ⟨A, 0⟩, ⟨A2, 0⟩, bv (s + stepMbp (K % np) count mbp), bv (count + 1))) := by
+    intro A A2 hne hA hA2 hfr hfr2 mbp s count hs1 hsK hm1 hm hcount tmp st
+    subst hstepdef
+    obtain ⟨e1, e2, e3, e4, e5, e6, e7, e8, e9, hle, hmb, hsi⟩ :=
+      sched_arith N K (K % np) mbp s count hK hN hs1 hsK hm1 hm (by omega) hcount
+    generalize stepMbp (K % np) count mbp = mbp' at *
+    generalize stepInc K s mbp' = sInc at *
+    unfold_loops
+    dsimp only
+    rw [if_pos hle, e1, e2, e3, e4, e5, e6, e7, e8, e9]
+    rw [Loop.rangeM_rep (R := Heap.R2 hp A A2)
+      (f := Model.Ntt.passBatch o N K NC s sInc (!(decide (s + mbp' ≤ K) || !inverse)) extend) (s := st) _ 0 (N / 2 ^ sInc)]
+    · simp only [Option.bind_some, bv_add, bv_one]
+      rfl
+    · -- the body of the batch loop = the hand model's `passBatch`
+      intro b st' _ hb
+      have hN30 : N ≤ 2 ^ 30 := by rw [hN]; exact Nat.pow_le_pow_right (by omega) hK
+      have hBN : 2 ^ sInc * (N / 2 ^ sInc) = N := by
+        rw [hN]
+        have : 2 ^ K = 2 ^ sInc * 2 ^ (K - sInc) := by rw [← Nat.pow_add]; congr 1; omega
+        rw [this, Nat.mul_div_cancel_left _ (Nat.pow_pos (by omega))]
+      have hbB : b * 2 ^ sInc + 2 ^ sInc ≤ N := by
+        have := mul_le_of_lt b (N / 2 ^ sInc) (2 ^ sInc) hb
+        rw [Nat.mul_comm (N / 2 ^ sInc)] at this
+        omega
+      have hX := ObjRep.R2 hrep hfr hfr2 st'
+      have hKS : K - 1 - (s - 1) = K - s := by omega
+      have hA' : A < (Heap.R2 hp A A2 st').size := by simpa using hA
+      have hB64 : 2 ^ sInc < 2 ^ 64 := Nat.pow_lt_pow_right (by omega) (by omega)
+      unfold_loops
+      dsimp only
+      rw [bv_toNat sInc (by omega), bv_toNat _ hB64]
+      rw [block_loop_g (Heap.R2 hp A A2 st') self o A hA' hX hfr sInc
+        (fun si a => Model.Ntt.stage o a s si b (2 ^ sInc) NC (s - 1) (K - 1) (2 ^ (s - 1)) (2 ^ (K - s) - 1))]
+      · simp only [Option.bind_some, bind_some_id]
+        rw [Heap.R2_block_fst _ _ _ _ hne hA, Heap.R2_setBlock_fst _ _ _ _ _ hne]
+        rw [show Model.Ntt.iter sInc st'.1 (fun si a => Model.Ntt.stage o a s si b (2 ^ sInc) NC (s - 1) (K - 1) (2 ^ (s - 1))
+            (2 ^ (K - s) - 1)) = Model.Ntt.batchStages o st'.1 s sInc b (2 ^ sInc) NC (s - 1) (K - 1) (2 ^ (s - 1)) (2 ^ (K - s) - 1)
+          from rfl]
+        have hc : decide (bv s + bv mbp' ≤ bv K) = decide (s + mbp' ≤ K) := by
+          rw [bv_add, decide_eq_decide, le_bv _ _ (by omega) (by omega)]
+        rw [hc]
+        unfold Model.Ntt.passBatch
+        by_cases hcond : (decide (s + mbp' ≤ K) || !inverse) = true
+        · rw [if_pos hcond]
+          simp only [hcond, Bool.not_true, Bool.false_eq_true, if_false, hKS]
+          -- the transposing copy
+          rw [snd_loop_g hp A A2 (2 ^ sInc) (fun x a2 => Model.Ntt.copyRow a2 ((x * (N / 2 ^ sInc) + b) * NC)
+            (Model.Ntt.batchStages o st'.1 s sInc b (2 ^ sInc) NC (s - 1) (K - 1) (2 ^ (s - 1)) (2 ^ (K - s) - 1))
+            ((b * 2 ^ sInc + x) * NC) NC)]
+          · rfl
+          · intro x P2 hx
+            have h1 : x * (N / 2 ^ sInc) + b < N := by
+              have := mr_lt' x b (2 ^ sInc) (N / 2 ^ sInc) hx hb
+              rw [hBN] at this; exact this
+            have h2 : b * 2 ^ sInc + x < N := by
+              have := mr_lt' b x (N / 2 ^ sInc) (2 ^ sInc) hb hx
+              rw [Nat.mul_comm (N / 2 ^ sInc) (2 ^ sInc), hBN] at this; exact this
+            have h3 := mul_le_of_lt _ _ NC h1
+            have h4 := mul_le_of_lt _ _ NC h2
+            unfold_loops
+            dsimp only
+            simp only [Heap.copy_eq, Ptr.add_blk, Ptr.add_off, Nat.zero_add, bv_add, bv_mul, e8]
+            simp (disch := bv_side) only [bv_toNat, Nat.mul_div_cancel, Nat.mul_div_cancel_left]
+            rw [Heap.R2_block_snd _ _ _ _ hA2, Heap.R2_block_fst _ _ _ _ hne hA, Heap.R2_setBlock_snd, copyRow_eq]
+            close_shape
+        · rw [if_neg hcond]
+          have hcf : (decide (s + mbp' ≤ K) || !inverse) = false := by simpa using hcond
+          simp only [hcf, Bool.not_false, if_true, hKS]
+          cases extend with
+          | true =>
+            simp only [if_true]
+            -- the reflecting, scaling copy with the factors `r_[dsty]` of `extendPol`
+            have hfac : ∀ j, (hp.block self.r_.blk).getD (self.r_.off + j) 0#64 = Model.Ntt.scaleFactor o true K j := by
+              intro j
+              have hc := hrep.cache
+              cases hrc : o.rcache with
+              | none => exact absurd hrc (hcache rfl)
+              | some v =>
+                obtain ⟨n, r, r_⟩ := v
+                rw [hrc] at hc
+                obtain ⟨_, _, _, _, c5, c6⟩ := hc
+                rw [c5, c6, Nat.zero_add]
+                simp only [Model.Ntt.scaleFactor, hrc, if_true]
+            have hrA : self.r_.blk ≠ A := fun e => hfr.2.2.2 e.symm
+            have hrA2 : self.r_.blk ≠ A2 := fun e => hfr2.2.2.2 e.symm
+            rw [snd_loop_g hp A A2 (2 ^ sInc) (fun x a2 =>
+              Model.Ntt.scaleRow a2 (Model.Ntt.batchStages o st'.1 s sInc b (2 ^ sInc) NC (s - 1) (K - 1) (2 ^ (s - 1)) (2 ^ (K - s) - 1))
+                (Model.Ntt.inttIdx (x * (N / 2 ^ sInc) + b) N * NC) ((b * 2 ^ sInc + x) * NC) NC
+                (Model.Ntt.scaleFactor o true K (Model.Ntt.inttIdx (x * (N / 2 ^ sInc) + b) N)))]
+            · rfl
+            · intro x P2 hx
+              have h1 : x * (N / 2 ^ sInc) + b < N := by
+                have := mr_lt' x b (2 ^ sInc) (N / 2 ^ sInc) hx hb
+                rw [hBN] at this; exact this
+              have h2 : b * 2 ^ sInc + x < N := by
+                have := mr_lt' b x (N / 2 ^ sInc) (2 ^ sInc) hb hx
+                rw [Nat.mul_comm (N / 2 ^ sInc) (2 ^ sInc), hBN] at this; exact this
+              have hd := inttIdx_lt _ _ h1
+              have h3 := mul_le_of_lt _ _ NC hd
+              have h4 := mul_le_of_lt _ _ NC h2
+              unfold_loops
+              dsimp only
+              simp only [bv_add, bv_mul, e8]
+              simp (disch := bv_side) only [ofU64_bv, intt_idx_gen, toU64_nat, bv_toNat, bv_mul, bind_some_id]
+              refine scaleRow_g hp A A2 _ _ _ NC (_, P2) _ ?_
+              intro k P2' hk
+              unfold_loops
+              try simp (disch := assumption) only [Heap.get_R2_other]
+              simp only [Heap.set_eq, Heap.get_def, Nat.zero_add, bv_add]
+              simp (disch := bv_side) only [bv_toNat]
+              rw [Heap.R2_block_snd _ _ _ _ hA2, Heap.R2_block_fst _ _ _ _ hne hA, Heap.R2_setBlock_snd, hfac]
+              all_goals try simp only [Model.Ntt.scaleFactor, Bool.false_eq_true, if_false]
+              close_shape
+          | false =>
+            simp only [Bool.false_eq_true, if_false]
+            -- the reflecting, scaling copy with the factor `powTwoInv[domainPow]`
+            have hfac : (hp.block self.powTwoInv.blk).getD (self.powTwoInv.off + K) 0#64 = o.powTwoInv.getD K 0#64 := by
+              rw [hrep.pti, hrep.pti_off, Nat.zero_add]
+            have hpA : self.powTwoInv.blk ≠ A := fun e => hfr.2.1 e.symm
+            have hpA2 : self.powTwoInv.blk ≠ A2 := fun e => hfr2.2.1 e.symm
+            try simp (disch := assumption) only [Heap.get_R2_other]
+            rw [snd_loop_g hp A A2 (2 ^ sInc) (fun x a2 =>
+              Model.Ntt.scaleRow a2 (Model.Ntt.batchStages o st'.1 s sInc b (2 ^ sInc) NC (s - 1) (K - 1) (2 ^ (s - 1)) (2 ^ (K - s) - 1))
+                (Model.Ntt.inttIdx (x * (N / 2 ^ sInc) + b) N * NC) ((b * 2 ^ sInc + x) * NC) NC
+                (Model.Ntt.scaleFactor o false K (Model.Ntt.inttIdx (x * (N / 2 ^ sInc) + b) N)))]
+            · rfl
+            · intro x P2 hx
+              have h1 : x * (N / 2 ^ sInc) + b < N := by
+                have := mr_lt' x b (2 ^ sInc) (N / 2 ^ sInc) hx hb
+                rw [hBN] at this; exact this
+              have h2 : b * 2 ^ sInc + x < N := by
+                have := mr_lt' b x (N / 2 ^ sInc) (2 ^ sInc) hb hx
+                rw [Nat.mul_comm (N / 2 ^ sInc) (2 ^ sInc), hBN] at this; exact this
+              have hd := inttIdx_lt _ _ h1
+              have h3 := mul_le_of_lt _ _ NC hd
+              have h4 := mul_le_of_lt _ _ NC h2
+              unfold_loops
+              dsimp only
+              simp only [bv_add, bv_mul, e8]
+              simp (disch := bv_side) only [ofU64_bv, intt_idx_gen, toU64_nat, bv_toNat, bv_mul, bind_some_id]
+              refine scaleRow_g hp A A2 _ _ _ NC (_, P2) _ ?_
+              intro k P2' hk
+              unfold_loops
+              try simp (disch := assumption) only [Heap.get_R2_other]
+              simp only [Heap.set_eq, Heap.get_def, Nat.zero_add, bv_add]
+              simp (disch := bv_side) only [bv_toNat]
+              rw [Heap.R2_block_snd _ _ _ _ hA2, Heap.R2_block_fst _ _ _ _ hne hA, Heap.R2_setBlock_snd, hfac]
+              all_goals try simp only [Model.Ntt.scaleFactor, Bool.false_eq_true, if_false]
+              close_shape
+      · -- one stage of one batch = the hand model's `stage`
+        intro si Y hsi hAY hrepY
+        have hU : 0 < 2 ^ si := Nat.pow_pos (by omega)
+        have hp1 : 2 ^ (s + si) < 2 ^ 64 := Nat.pow_lt_pow_right (by omega) (by omega)
+        have hp2 : 2 ^ si < 2 ^ 64 := Nat.pow_lt_pow_right (by omega) (by omega)
+        have hp3 : 2 ^ si * 2 ≤ 2 ^ sInc := by
+          rw [← Nat.pow_succ]; exact Nat.pow_le_pow_right (by omega) (by omega)
+        unfold_loops
+        dsimp only
+        simp (disch := bv_side) only [bv_add, bv_mul, bv_shr, bv_toNat, shl_one, Nat.pow_one, bind_some_id]
+        rw [block_loop_g Y self o A hAY hrepY hfr (2 ^ sInc / 2)
+          (Model.Ntt.stageStep o s si b (2 ^ sInc) NC (s - 1) (K - 1) (2 ^ (s - 1)))]
+        · rfl
+        · -- one butterfly of one stage = the hand model's `stageStep`
+          intro i Z hi hAZ hrepZ
+          have hi64 : i < 2 ^ 64 := by omega
+          have hbB64 : b * 2 ^ sInc < 2 ^ 64 := by omega
+          have hj0 : b * 2 ^ sInc / 2 + i ≤ 2 ^ 31 := by omega
+          have hRB : 2 ^ (s - 1) ≤ 2 ^ 30 := Nat.pow_le_pow_right (by omega) (by omega)
+          have hj1 : (b * 2 ^ sInc / 2 + i) % 2 ^ (K - s) * 2 ^ (s - 1) + (b * 2 ^ sInc / 2 + i) / 2 ^ (K - s) < 2 ^ 62 := by
+            have h1 : (b * 2 ^ sInc / 2 + i) % 2 ^ (K - s) ≤ 2 ^ 31 := Nat.le_trans (Nat.mod_le _ _) hj0
+            have h2 : (b * 2 ^ sInc / 2 + i) / 2 ^ (K - s) ≤ 2 ^ 31 := Nat.le_trans (Nat.div_le_self _ _) hj0
+            have h3 : (b * 2 ^ sInc / 2 + i) % 2 ^ (K - s) * 2 ^ (s - 1) ≤ 2 ^ 31 * 2 ^ 30 := Nat.mul_le_mul h1 hRB
+            omega
+          have hM : 2 ^ (s + si) / 2 < 2 ^ 64 := by omega
+          unfold_loops
+          dsimp only
+          simp (disch := bv_side) only [bv_add, bv_mul, bv_div, bv_mod, bv_mask, bv_shr, bv_sub, bv_toNat, hKS, bind_some_id]
+          have hhalf : 0 < 2 ^ (s + si) / 2 := by
+            have : 2 ^ (s + si) = 2 ^ (s + si - 1) * 2 := by
+              rw [← Nat.pow_succ]; congr 1; omega
+            rw [this, Nat.mul_div_cancel _ (by omega)]
+            exact Nat.pow_pos (by omega)
+          rw [root_bv Z self o hrepZ _ _ (by omega) hos
+            (Nat.lt_of_lt_of_le (Nat.mod_lt _ hhalf) (Nat.div_le_self _ _))]
+          have hiM : i < 2 ^ (sInc - si - 1) * 2 ^ si := by
+            have : 2 ^ sInc / 2 = 2 ^ (sInc - si - 1) * 2 ^ si := by
+              rw [pow_stage sInc si hsi, ← Nat.mul_assoc, Nat.mul_div_cancel _ (by omega)]
+            omega
+          have hrow := row_lt (2 ^ si) (2 ^ (sInc - si - 1)) i hU hiM
+          rw [← pow_stage sInc si hsi] at hrow
+          have hrow2 := mul_le_of_lt _ _ NC
+            (show b * 2 ^ sInc + i / 2 ^ si * (2 ^ si * 2) + i % 2 ^ si + 2 ^ si < N by omega)
+          unfold Model.Ntt.stageStep Model.Ntt.twIdx
+          dsimp only
+          refine bfly_loop_g A _ _ NC _ Z hAZ _ ?_
+          -- one column of one butterfly = the hand model's `bflyStep`
+          intro k Y' hk hY'
+          unfold_loops
+          unfold Model.Ntt.bflyStep
+          simp only [Heap.set_eq, Heap.get_def, Nat.zero_add, bv_add]
+          simp (disch := bv_side) only [bv_toNat]
+          rw [Heap.block_setBlock_same _ _ _ hY', Heap.setBlock_setBlock]
+          close_shape
+  have hstop : ∀ (mbp s count : Nat), K < s → s < 2 ^ 64 → ∀ (X : Heap) (tmp a2 a : Ptr),
+      step (bv mbp, X, tmp, a2, a, bv s, bv count) = some (false, (bv mbp, X, tmp, a2, a, bv s, bv count)) := by
+    intro mbp s count hsK hs X tmp a2 a
+    subst hstepdef
+    have hle : decide (bv s ≤ bv K) = false := by
+      rw [decide_eq_false_iff_not, le_bv _ _ hs (by omega)]; omega
+    unfold_loops
+    dsimp only
+    rw [hle]
+    rfl
+  clear hstepdef
   have ha0 : (if decide (D = Sx) = true then hp.block Sx else hp.block D) = hp.block D := by
     by_cases h : D = Sx
     · subst h; simp
@@ -143,8 +368,8 @@ theorem nttIters_gen (fuel : Nat) (hf : 64 ≤ fuel) (hp : Heap) (self : NTT_Gol
         rw [Heap.block_setBlock_other _ _ _ _ hDA] at this
         exact this.symm
       rw [hR, hsched, hone]
-      obtain ⟨A', A2', tmp', m', s', c', hw, hd⟩ := passes_gen hp self o hrep N NC K (K % np) inverse extend hK hN hKs hos
-        hNNC hNC8 hcache (by omega) (K + 1) Ax D (Ne.symm hDA) hAx hD hfrA hfrD
+      obtain ⟨A', A2', tmp', m', s', c', hw, hd⟩ := passes_g hp self o N NC K (K % np) inverse extend hK step hstep hstop
+        (by omega) (K + 1) Ax D (Ne.symm hDA) hAx hD hfrA hfrD
         (K / np + (if K % np > 0 then 1 else 0)) 1 1 false ⟨Ax, 0⟩ (t, hp.block D) fuel (by omega) (by omega) (by omega)
         (by omega) hmb1.1 hmb1.2 (by omega)
       rcases hd with ⟨e, ea, eb⟩ | ⟨e, ea, eb⟩
@@ -187,8 +412,8 @@ theorem nttIters_gen (fuel : Nat) (hf : 64 ≤ fuel) (hp : Heap) (self : NTT_Gol
         rw [Heap.block_setBlock_other _ _ _ _ (Ne.symm hDA)] at this
         exact this.symm
       rw [hR, hsched, hone]
-      obtain ⟨A', A2', tmp', m', s', c', hw, hd⟩ := passes_gen hp self o hrep N NC K (K % np) inverse extend hK hN hKs hos
-        hNNC hNC8 hcache (by omega) (K + 1) D Ax hDA hD hAx hfrD hfrA
+      obtain ⟨A', A2', tmp', m', s', c', hw, hd⟩ := passes_g hp self o N NC K (K % np) inverse extend hK step hstep hstop
+        (by omega) (K + 1) D Ax hDA hD hAx hfrD hfrA
         (K / np + (if K % np > 0 then 1 else 0)) 1 1 true ⟨D, 0⟩ (t, hp.block Ax) fuel (by omega) (by omega) (by omega)
         (by omega) hmb1.1 hmb1.2 (by omega)
       rcases hd with ⟨e, ea, eb⟩ | ⟨e, ea, eb⟩
